@@ -590,6 +590,24 @@ func (s *dbSet) path(backend string) (string, error) {
 		if _, err := rdb.CompileToSpecificRDBVersion(s.in, p, rdb.CompilationOptions{UseV2KeySyntax: backend == "rdb2", UseBuilder: true}); err != nil {
 			return "", fmt.Errorf("%s compile: %w", backend, err)
 		}
+	case "rdb1root":
+		// RocksDB v1 plus a record at the root name: location lookups of names without a
+		// map fail (handler path: FindLocation error -> LogFailed, nothing written)
+		in2 := filepath.Join(s.dir, "data-root.in")
+		text, err := os.ReadFile(s.in)
+		if err != nil {
+			return "", err
+		}
+		if err := os.WriteFile(in2, append(text, []byte("&.,,a.ns.example.com,172800,,\n")...), 0o644); err != nil {
+			return "", err
+		}
+		p = filepath.Join(s.dir, backend)
+		if err := os.MkdirAll(p, 0o755); err != nil {
+			return "", err
+		}
+		if _, err := rdb.CompileToSpecificRDBVersion(in2, p, rdb.CompilationOptions{UseV2KeySyntax: false, UseBuilder: true}); err != nil {
+			return "", fmt.Errorf("%s compile: %w", backend, err)
+		}
 	default:
 		p = filepath.Join(s.dir, "does-not-exist.cdb")
 	}
@@ -1164,6 +1182,24 @@ func queryPart(a *hlib.Args, e *hlib.Emitter, dbs *dbSet) error {
 	}
 	emitQuery(e, s, nil, qspec{Name: "foo.example.com.", Qtype: dns.TypeA, Edns: -1, IP: "9.9.9.9", MaxAns: 1}, "")
 	emitQuery(e, s, nil, qspec{Name: "foo.example.com.", Qtype: dns.TypeAAAA, Edns: 0, Do: true, IP: "9.9.9.9", MaxAns: 1}, "")
+	// 2b. location lookup failure (RocksDB v1 with a record at the root name)
+	for _, cache := range []string{"off", "on"} {
+		s, err := newServer(dbs, "rdb1root", cache)
+		if err != nil {
+			return err
+		}
+		var prior []qspec
+		for _, q := range []qspec{
+			{Name: "www.nomap.test.", Qtype: dns.TypeA, Edns: -1, IP: "9.9.9.9", MaxAns: 1},
+			{Name: "foo.example.com.", Qtype: dns.TypeA, Edns: -1, IP: "9.9.9.9", MaxAns: 1},
+			{Name: "example.invalid.", Qtype: dns.TypeMX, Edns: 0, Do: true, IP: "9.9.9.9", MaxAns: 1},
+			{Name: ".", Qtype: dns.TypeNS, Edns: -1, IP: "9.9.9.9", MaxAns: 1},
+		} {
+			emitQuery(e, s, prior, q, "root-")
+			prior = append(prior, q)
+		}
+		s.close()
+	}
 	// 3. cache expiry: weighted answer cached for WRSTimeout = 1 s, asked again at once and after 2.1 s
 	for i, be := range backends {
 		if a.Tier != "thorough" && i != int(a.Seed%3) {
